@@ -56,6 +56,10 @@ CHECKS = {
  'C06': ('exploration', 'runtime monitors armed around every query (success and every exception path): deep snapshots + row identity + scribble test of list sources, icontract on query_table, dataframe deep copies, recording sqlite connection + authorizer log + total_changes + database file hash under hostile identifiers, file fingerprints + sys.addaudithook log of open modes, strace on the CLI, JS array snapshots in the node driver',
          'Every query shape of C01-C05 plus failing variants is executed against every source kind with observers that record any write access or change; the sqlite clause is decided from three independent observations (authorizer actions, SQL text characters, identifier after FROM); held on the executions observed.',
          'Trusted: the observers (audit hook, authorizer, strace parser). sqlite3.connect opens the file read-write by itself; the file hash decides there.', 'DESIGN.md#c06'),
+
+ 'C14': ('fault_enumeration', 'runtime monitor: fault enumeration (a poisoned record at every position x every clause placement; every static mistake; an invalid byte at every offset; every subset of warning anomalies) with the reference error predictor and a per-anomaly warning predictor as oracles; probe-writer trace for "no record written before a parsing error"; JS leg',
+         'Every fault position of the enumerated scenario families is executed on the real engine; the error class, the named record / field and the exact warning set are compared with prediction; held on the scenarios enumerated.',
+         'Trusted: rv/model/refsem.py error prediction, rv/model/refcsv.py reader for the warning predictor. Error texts are never compared.', 'DESIGN.md#c14'),
 }
 
 NOT_YET = 'check not registered yet (machinery under construction; see DESIGN.md section 3a build order)'
